@@ -1,6 +1,7 @@
 package main
 
 import (
+	"bytes"
 	"encoding/hex"
 	"encoding/json"
 	"fmt"
@@ -152,6 +153,9 @@ func (s SepItem) coq() string {
 	case "nl":
 		return "SpNl " + s.NL
 	case "line":
+		if n := len(s.Text); n > 64 && bytes.Count(s.Text, s.Text[:1]) == n { // padding: one byte repeated
+			return fmt.Sprintf("SpLine (repeat %s (Z.to_nat %d)) %s", zn(int(s.Text[0])), n, s.NL)
+		}
 		return fmt.Sprintf("SpLine %s %s", cb(s.Text), s.NL)
 	case "block":
 		return fmt.Sprintf("SpBlock %d %s", s.Lvl, cb(s.Text))
@@ -312,7 +316,7 @@ func noMerge(l Lexeme, c int) bool {
 	case "name":
 		return !isAlnum(c)
 	case "num":
-		return !isAlnum(c) && c != '.'
+		return !isAlnum(c) && (c != '.' || numDotOK(l.S))
 	case "sym":
 		switch l.Ty {
 		case '-':
@@ -330,6 +334,14 @@ func noMerge(l Lexeme, c int) bool {
 		}
 	}
 	return true
+}
+
+// numDotOK mirrors Render.num_dot_ok: a "." may follow a hexadecimal numeral or one with an exponent
+func numDotOK(s []byte) bool {
+	if len(s) > 2 && s[0] == '0' && (s[1] == 'x' || s[1] == 'X') {
+		return true
+	}
+	return bytes.ContainsAny(s, "eE")
 }
 
 // mlBodyOK mirrors Render.ml_body_ok: the closing bracket first occurs at the end of body.
